@@ -2,13 +2,15 @@ package eventbus
 
 import "sync"
 
-//verif:entry property=C07 tier=both bounds="one Sequential handler (enter; yield; exit) and G concurrent synchronous publishers of one event each; every interleaving within the preemption bound" cover="done" G_quick=2 G_thorough=3 preempt_quick=2 preempt_thorough=3 race=on
+//verif:entry property=C07 tier=both bounds="one Sequential handler (enter; yield; exit; the first invocation may panic) and G concurrent synchronous publishers of one event each; every interleaving within the preemption bound" cover="done" G_quick=2 G_thorough=3 preempt_quick=2 preempt_thorough=3 race=on
 func harnessC07NoOverlapSync() {
 	G := vParam("G", 2)
 	bus := New()
 	var mu sync.Mutex
 	inside, maxInside, count := 0, 0, 0
 	seen := map[int]int{}
+	panicFirst := vBool() // the first invocation panics after leaving the critical section
+	first := true
 	Subscribe(bus, func(e evA) {
 		mu.Lock()
 		inside++
@@ -21,7 +23,12 @@ func harnessC07NoOverlapSync() {
 		inside--
 		count++
 		seen[e.N]++
+		boom := panicFirst && first
+		first = false
 		mu.Unlock()
+		if boom {
+			panic("first invocation fails")
+		}
 	}, Sequential())
 	var wg sync.WaitGroup
 	for g := 0; g < G; g++ {
